@@ -429,8 +429,8 @@ Definition execute (dbg : bool) (h : header) (r : row) (i : insn) : res (row * x
 
 (* ------------------------------------------------------------------ LineRows *)
 
-(* LineRows { program (only the files added so far matter), row, instructions } *)
-Record lr_state : Type := mk_st { st_row : row; st_inp : list byte; st_added : list file_entry }.
+(* LineRows { program (only the files added so far matter), row, instructions, in_sequence } *)
+Record lr_state : Type := mk_st { st_row : row; st_inp : list byte; st_added : list file_entry; st_inseq : bool }.
 
 (* what one call of next_row returned *)
 Inductive nr_out : Type := NRow | NNone | NErr (e : error) | NPanic | NFuel.
@@ -441,67 +441,71 @@ Definition add_file (resumed : bool) (i : insn) (added : list file_entry) : list
   | _ => added
   end.
 
-(* the `loop` of LineRows::next_row. `dropped` is a GHOST flag (not observable in the Rust): it
-   records that an end_sequence row was suppressed because the row was a tombstone. *)
+(* the `loop` of LineRows::next_row. `inseq` is self.in_sequence ("a row has been returned for the
+   current sequence"); it only changes when a row is returned. A tombstone row is skipped unless it is
+   the end_sequence row of a sequence that already returned rows. *)
 Fixpoint next_row_loop (fuel : nat) (dbg be resumed : bool) (h : header) (r : row) (inp : list byte)
-  (added : list file_entry) (dropped : bool) : nr_out * lr_state * bool :=
+  (added : list file_entry) (inseq : bool) : nr_out * lr_state :=
   match fuel with
-  | O => (NFuel, mk_st r inp added, dropped)
+  | O => (NFuel, mk_st r inp added inseq)
   | S f =>
       (* LineInstructions::next_instruction *)
       match inp with
-      | [] => (NNone, mk_st r [] added, dropped)
+      | [] => (NNone, mk_st r [] added inseq)
       | _ =>
           match parse_insn dbg be h inp with
-          | Err e => (NErr e, mk_st r [] added, dropped)          (* self.input.empty() *)
-          | Panic => (NPanic, mk_st r inp added, dropped)
-          | OutOfFuel => (NFuel, mk_st r inp added, dropped)
+          | Err e => (NErr e, mk_st r [] added inseq)          (* self.input.empty() *)
+          | Panic => (NPanic, mk_st r inp added inseq)
+          | OutOfFuel => (NFuel, mk_st r inp added inseq)
           | Ok (i, rest) =>
               match execute dbg h r i with
-              | Panic => (NPanic, mk_st r rest added, dropped)
-              | OutOfFuel => (NFuel, mk_st r rest added, dropped)
-              | Err e => (NErr e, mk_st r rest added, dropped)    (* not produced by execute *)
-              | Ok (r', XErr e) => (NErr e, mk_st r' rest (add_file resumed i added), dropped)
-              | Ok (r', XNoRow) => next_row_loop f dbg be resumed h r' rest (add_file resumed i added) dropped
+              | Panic => (NPanic, mk_st r rest added inseq)
+              | OutOfFuel => (NFuel, mk_st r rest added inseq)
+              | Err e => (NErr e, mk_st r rest added inseq)    (* not produced by execute *)
+              | Ok (r', XErr e) => (NErr e, mk_st r' rest (add_file resumed i added) inseq)
+              | Ok (r', XNoRow) => next_row_loop f dbg be resumed h r' rest (add_file resumed i added) inseq
               | Ok (r', XRow) =>
-                  if r_tomb r' then
-                    next_row_loop f dbg be resumed h (row_reset h r') rest added (dropped || r_end r')
-                  else (NRow, mk_st r' rest added, dropped)
+                  if r_tomb r' && negb (r_end r' && inseq) then
+                    next_row_loop f dbg be resumed h (row_reset h r') rest added inseq
+                  else (NRow, mk_st r' rest added (negb (r_end r')))
               end
           end
       end
   end.
 
 (* LineRows::next_row *)
-Definition next_row (dbg be resumed : bool) (h : header) (st : lr_state) : nr_out * lr_state * bool :=
-  next_row_loop (S (length (st_inp st))) dbg be resumed h (row_reset h (st_row st)) (st_inp st) (st_added st) false.
+Definition next_row (dbg be resumed : bool) (h : header) (st : lr_state) : nr_out * lr_state :=
+  next_row_loop (S (length (st_inp st))) dbg be resumed h (row_reset h (st_row st)) (st_inp st) (st_added st)
+                (st_inseq st).
 
 (* how a run over all rows ended *)
 Inductive status : Type := SEnd | SErr (e : error) | SPanic | SFuel.
 
-(* `while let Some(row) = rows.next_row()? { .. }`: the rows, each with the ghost flag "a tombstoned
-   end_sequence was swallowed since the previous emitted row", and how the iteration ended *)
+(* `while let Some(row) = rows.next_row()? { .. }`: the rows and how the iteration ended *)
 Fixpoint rows_loop (fuel : nat) (dbg be resumed : bool) (h : header) (st : lr_state)
-  : list (row * bool) * status * lr_state :=
+  : list row * status * lr_state :=
   match fuel with
   | O => ([], SFuel, st)
   | S f =>
       match next_row dbg be resumed h st with
-      | (NRow, st', d) =>
-          let '(rs, s, stf) := rows_loop f dbg be resumed h st' in ((st_row st', d) :: rs, s, stf)
-      | (NNone, st', _) => ([], SEnd, st')
-      | (NErr e, st', _) => ([], SErr e, st')
-      | (NPanic, st', _) => ([], SPanic, st')
-      | (NFuel, st', _) => ([], SFuel, st')
+      | (NRow, st') =>
+          let '(rs, s, stf) := rows_loop f dbg be resumed h st' in (st_row st' :: rs, s, stf)
+      | (NNone, st') => ([], SEnd, st')
+      | (NErr e, st') => ([], SErr e, st')
+      | (NPanic, st') => ([], SPanic, st')
+      | (NFuel, st') => ([], SFuel, st')
       end
   end.
 
-(* LineRows::new + iteration: IncompleteLineProgram::rows *)
-Definition rows_ghost (dbg be : bool) (h : header) : list (row * bool) * status * lr_state :=
-  rows_loop (S (length (h_program h))) dbg be false h (mk_st (row_new h) (h_program h) []).
+(* LineRows::new *)
+Definition st_init (h : header) (inp : list byte) : lr_state := mk_st (row_new h) inp [] false.
+
+(* LineRows::new + iteration: IncompleteLineProgram::rows; the final state carries the completed file table *)
+Definition rows_full (dbg be : bool) (h : header) : list row * status * lr_state :=
+  rows_loop (S (length (h_program h))) dbg be false h (st_init h (h_program h)).
 
 Definition rows_model (dbg be : bool) (h : header) : list row * status :=
-  let '(rs, s, _) := rows_ghost dbg be h in (map fst rs, s).
+  let '(rs, s, _) := rows_full dbg be h in (rs, s).
 
 (* a caller that keeps calling next_row after an Err (until Ok(None)) *)
 Inductive ev : Type := EvRow (r : row) | EvErr (e : error).
@@ -510,15 +514,15 @@ Fixpoint cont_loop (fuel : nat) (dbg be : bool) (h : header) (st : lr_state) : l
   | O => ([], SFuel)
   | S f =>
       match next_row dbg be false h st with
-      | (NRow, st', _) => let '(es, s) := cont_loop f dbg be h st' in (EvRow (st_row st') :: es, s)
-      | (NErr e, st', _) => let '(es, s) := cont_loop f dbg be h st' in (EvErr e :: es, s)
-      | (NNone, _, _) => ([], SEnd)
-      | (NPanic, _, _) => ([], SPanic)
-      | (NFuel, _, _) => ([], SFuel)
+      | (NRow, st') => let '(es, s) := cont_loop f dbg be h st' in (EvRow (st_row st') :: es, s)
+      | (NErr e, st') => let '(es, s) := cont_loop f dbg be h st' in (EvErr e :: es, s)
+      | (NNone, _) => ([], SEnd)
+      | (NPanic, _) => ([], SPanic)
+      | (NFuel, _) => ([], SFuel)
       end
   end.
 Definition rows_cont (dbg be : bool) (h : header) : list ev * status :=
-  cont_loop (S (S (length (h_program h)))) dbg be h (mk_st (row_new h) (h_program h) []).
+  cont_loop (S (S (length (h_program h)))) dbg be h (st_init h (h_program h)).
 
 (* ------------------------------------------------------------------ sequences / resume_from *)
 
@@ -535,11 +539,11 @@ Fixpoint seq_loop (fuel : nat) (dbg be : bool) (h : header) (st : lr_state) (ins
   | O => OutOfFuel
   | S f =>
       match next_row dbg be false h st with
-      | (NNone, st', _) => Ok (st_added st', [])
-      | (NErr e, _, _) => Err e
-      | (NPanic, _, _) => Panic
-      | (NFuel, _, _) => OutOfFuel
-      | (NRow, st', _) =>
+      | (NNone, st') => Ok (st_added st', [])
+      | (NErr e, _) => Err e
+      | (NPanic, _) => Panic
+      | (NFuel, _) => OutOfFuel
+      | (NRow, st') =>
           let r := st_row st' in
           if r_end r then
             let s := mk_seq (match start with Some a => a | None => 0 end) (r_addr r)
@@ -553,12 +557,12 @@ Fixpoint seq_loop (fuel : nat) (dbg be : bool) (h : header) (st : lr_state) (ins
 
 (* IncompleteLineProgram::sequences: files added by DW_LNE_define_file, and the sequences *)
 Definition sequences (dbg be : bool) (h : header) : res (list file_entry * list line_seq) :=
-  seq_loop (S (length (h_program h))) dbg be h (mk_st (row_new h) (h_program h) []) (h_program h) None.
+  seq_loop (S (length (h_program h))) dbg be h (st_init h (h_program h)) (h_program h) None.
 
-(* CompleteLineProgram::resume_from + iteration *)
+(* CompleteLineProgram::resume_from (LineRows::resume: in_sequence = false) + iteration *)
 Definition resume_rows (dbg be : bool) (h : header) (s : line_seq) : list row * status :=
-  let '(rs, st, _) := rows_loop (S (length (sq_insns s))) dbg be true h (mk_st (row_new h) (sq_insns s) []) in
-  (map fst rs, st).
+  let '(rs, st, _) := rows_loop (S (length (sq_insns s))) dbg be true h (st_init h (sq_insns s)) in
+  (rs, st).
 
 (* the instruction dump of header.instructions(): all instructions up to the end or the first error *)
 Fixpoint insns_loop (fuel : nat) (dbg be : bool) (h : header) (inp : list byte) : list insn * status :=
